@@ -134,7 +134,7 @@ func planC12(tier string, root *simcore.RNG) *plan {
 			}
 		}
 		var faults []Fault
-		faults = append(faults, Fault{Kind: "nodir"}, Fault{Kind: "isdir"}, Fault{Kind: "devfull"}, Fault{Kind: "vanish"})
+		faults = append(faults, Fault{Kind: "nodir"}, Fault{Kind: "isdir"}, Fault{Kind: "devfull"}, Fault{Kind: "vanish"}, Fault{Kind: "emfile"})
 		for _, b := range budgets {
 			faults = append(faults, Fault{Kind: "fsize", Budget: b})
 		}
@@ -270,7 +270,7 @@ func planC12(tier string, root *simcore.RNG) *plan {
 		pl.scenarios = append(pl.scenarios, sc)
 	}
 	pl.extra = map[string]any{"fault_points_enumerated": faultPoints, "render_histories": histories}
-	pl.rule = "part 1: for every render-to-file entry (ToSTL/To3MF/ToDXF/ToSVG) x renderer (scripted; uniform and octree marching cubes; uniform/quadtree marching squares; 2D dual contouring) x fault (create fails: missing directory, path is a directory; /dev/full; the file is unlinked right after it was created; RLIMIT_FSIZE budget n for every 4096-byte flush index +-1 byte, the header offsets 0/1/83/84/85, size-1/-84/-85, and the unreached control budget; thorough adds every byte offset for small files) x schedule (fifo, uniform, starve(consumer), starve(renderer)); oracle = the call returns (simulator deadlock verdict otherwise). part 2: histories that repeat a block of renders R>=4 times; oracle = goroutine count at quiescence after repetition R <= after repetition 2. Non-trivial = the injected fault actually fired (or, for census episodes, a uniform render ran); distinct = (entry, fault kind, budget, policy)."
+	pl.rule = "part 1: for every render-to-file entry (ToSTL/To3MF/ToDXF/ToSVG) x renderer (scripted; uniform and octree marching cubes; uniform/quadtree marching squares; 2D dual contouring) x fault (create fails: missing directory, path is a directory; /dev/full; the file is unlinked right after it was created; the process is out of file descriptors (EMFILE); RLIMIT_FSIZE budget n for every 4096-byte flush index +-1 byte, the header offsets 0/1/83/84/85, size-1/-84/-85, and the unreached control budget; thorough adds every byte offset for small files) x schedule (fifo, uniform, starve(consumer), starve(renderer)); oracle = the call returns (simulator deadlock verdict otherwise). part 2: histories that repeat a block of renders R>=4 times; oracle = goroutine count at quiescence after repetition R <= after repetition 2. Non-trivial = the injected fault actually fired (or, for census episodes, a uniform render ran); distinct = (entry, fault kind, budget, policy)."
 	pl.nontriv = func(o *runOut) (bool, string) {
 		if o.res == nil {
 			return false, ""
